@@ -196,4 +196,237 @@ theorem elabTern_stable {c' a' b' n c0 a0 b0 : IExpr} {τc τa τb τ τc0 τa0 
                     hcc0]
                   simp [h.1, h.2]
 
+/-! ## the assignment family -/
+
+/-- **Assignments are stable under re-elaboration** (the left operand is never converted). -/
+theorem elabAssign_stable {o : BinOp} {a b' n b0 : IExpr} {τa τb τ τb0 : ETy}
+    (h : elabAssign o a τa b' τb = .ok (n, τ)) :
+    ∃ c b2 i, find τb τa.ty.r = .ok (some c) ∧ applyConv c b' = .ok b2 ∧ o.toIOp = some i ∧
+      n = .op i (.cons a (.cons b2 .nil)) ∧
+      (Back τb τa.ty.r b' b2 b0 τb0 → elabAssign o a τa b0 τb0 = .ok (n, τ)) := by
+  unfold elabAssign at h
+  split at h
+  · simp at h
+  · rename_i hconst
+    split at h
+    · simp at h
+    · rename_i hlv
+      split at h
+      · simp at h
+      · simp at h
+      · rename_i b2 tb hc
+        obtain ⟨c, hf, ha, htb⟩ := convert_inv hc
+        subst htb
+        split at h
+        · simp at h
+        · rename_i i hi
+          split at h
+          · simp at h
+          · rename_i out hout
+            simp at h
+            refine ⟨c, b2, i, hf, ha, hi, h.1.symm, ?_⟩
+            intro hb
+            have hc0 := back_convert hf ha hb
+            unfold elabAssign
+            simp only [hconst, hlv, if_false, hc0, hi, hout]
+            simp [h.1, h.2]
+
+/-! ## unary operators -/
+
+variable {Γ Γ' : Env}
+
+theorem unelab_op1 {o : IOp} {u : UnOp} {e : IExpr} {s' : SExpr} (ho : opSyn o = some (.un u))
+    (hu : Unelab Γ' (.op o (.cons e .nil)) s') : ∃ x', s' = .un u x' ∧ Unelab Γ' e x' := by
+  cases hu with
+  | un ho' hu' =>
+    rw [ho] at ho'
+    simp at ho'
+    subst ho'
+    exact ⟨_, rfl, hu'⟩
+
+theorem unelab_op2 {o : IOp} {b : BinOp} {x y : IExpr} {s' : SExpr} (ho : opSyn o = some (.bin b))
+    (hu : Unelab Γ' (.op o (.cons x (.cons y .nil))) s') :
+    ∃ x' y', s' = .bin b x' y' ∧ Unelab Γ' x x' ∧ Unelab Γ' y y' := by
+  cases hu with
+  | bin ho' hx hy =>
+    rw [ho] at ho'
+    simp at ho'
+    subst ho'
+    exact ⟨_, _, rfl, hx, hy⟩
+
+theorem elabE_un {o : UnOp} {x' : SExpr} {e n : IExpr} {τ τ' : ETy}
+    (h1 : elabE false Γ' x' = .ok (e, τ)) (h2 : elabUn o e τ = .ok (n, τ')) :
+    elabE false Γ' (.un o x') = .ok (n, τ') := by
+  simp [elabE, h1, h2, selfCheck]
+
+theorem intR_layer : intR.ty.layer = .scalar .int32 := rfl
+theorem boolR_layer : boolR.ty.layer = .scalar .bool := rfl
+
+theorem castOperand_inv {f : Err} {e e2 : IExpr} {τ inp : ETy} (h : castOperand f e τ inp = .ok e2) :
+    (τ = inp ∧ e2 = e) ∨ (τ ≠ inp ∧ ∃ c, find τ inp = .ok (some c) ∧ applyConv c e = .ok e2) := by
+  unfold castOperand at h
+  split at h
+  · rename_i he; simp at h; exact Or.inl ⟨he, h.symm⟩
+  · rename_i hne
+    split at h
+    · simp at h
+    · simp at h
+    · rename_i c hf
+      exact Or.inr ⟨hne, c, hf, h⟩
+
+theorem castOperand_of_back {f : Err} {e e2 e0 : IExpr} {τ inp τ0 : ETy} {c : Conversion} (hne : τ ≠ inp)
+    (hf : find τ inp = .ok (some c)) (ha : applyConv c e = .ok e2) (hb : Back τ inp e e2 e0 τ0) :
+    castOperand f e0 τ0 inp = .ok e2 := by
+  obtain ⟨c0, hf0, ha0⟩ := back_find hf ha hb
+  unfold castOperand
+  split
+  · rename_i he
+    cases hb with
+    | same => exact absurd he hne
+    | exact _ => rfl
+    | relit h1 h2 _ => subst h2; cases he
+  · simp only [hf0, ha0]
+
+theorem unmod_scalarTy (k : Scalar) : (scalarTy k).r.ty.unmod.r = (scalarTy k).r := rfl
+
+/-- **Unary operators are stable under re-elaboration.**  `ih`: the operand re-elaborates to itself; `hlit`: a literal
+    operand has a kind with a spelling (it was not re-tagged: operands of unary operators are elaborated without a
+    requested type). -/
+theorem elabUn_stable {o : UnOp} {e' n : IExpr} {τ τ' : ETy} (hty : HasType Γ e' τ)
+    (h : elabUn o e' τ = .ok (n, τ'))
+    (ih : ∀ s', Unelab Γ' e' s' → elabE false Γ' s' = .ok (e', τ))
+    (hlit : ∀ k, e' = .lit k → rereadKind k = k) :
+    ∀ s', Unelab Γ' n s' → elabE false Γ' s' = .ok (n, τ') := by
+  intro s' hu
+  -- an operator node over the unconverted operand
+  have plain : ∀ (i : IOp) (u : UnOp), opSyn i = some (.un u) → n = .op i (.cons e' .nil) →
+      elabUn u e' τ = .ok (n, τ') → elabE false Γ' s' = .ok (n, τ') := by
+    intro i u hi hn hel
+    subst hn
+    obtain ⟨x', rfl, hx⟩ := unelab_op1 hi hu
+    exact elabE_un (ih _ hx) hel
+  -- an operator node over a converted operand
+  have conv : ∀ (i : IOp) (u : UnOp) (e2 : IExpr) (inp : ETy) (c : Conversion), opSyn i = some (.un u) →
+      n = .op i (.cons e2 .nil) → inp.vt = .rvalue → find τ inp = .ok (some c) → applyConv c e' = .ok e2 →
+      (∀ e0 τ0, Back τ inp e' e2 e0 τ0 → elabUn u e0 τ0 = .ok (n, τ')) → elabE false Γ' s' = .ok (n, τ') := by
+    intro i u e2 inp c hi hn hr hf ha hk
+    subst hn
+    obtain ⟨x', rfl, hx⟩ := unelab_op1 hi hu
+    obtain ⟨e0, τ0, hel, hb⟩ := reconv hty ih hf ha (Or.inl hr) _ hx
+    exact elabE_un hel (hk e0 τ0 hb)
+  cases o with
+  | prefixIncrement =>
+    have h' := h
+    simp only [elabUn] at h
+    split at h
+    · simp at h
+    · simp at h; exact plain _ _ opSyn_prefixIncrement h.1.symm h'
+  | prefixDecrement =>
+    have h' := h
+    simp only [elabUn] at h
+    split at h
+    · simp at h
+    · simp at h; exact plain _ _ opSyn_prefixDecrement h.1.symm h'
+  | postfixIncrement =>
+    have h' := h
+    simp only [elabUn] at h
+    split at h
+    · simp at h
+    · simp at h; exact plain _ _ opSyn_postfixIncrement h.1.symm h'
+  | postfixDecrement =>
+    have h' := h
+    simp only [elabUn] at h
+    split at h
+    · simp at h
+    · simp at h; exact plain _ _ opSyn_postfixDecrement h.1.symm h'
+  | plus =>
+    have h' := h
+    simp only [elabUn] at h
+    split at h
+    · simp at h
+    · simp at h
+    · simp at h; exact plain _ _ opSyn_plus h.1.symm h'
+  | minus =>
+    have h' := h
+    simp only [elabUn] at h
+    split at h
+    · simp at h
+    · simp at h
+    · split at h
+      · rename_i k
+        split at h
+        · -- folded: the node is the literal itself
+          simp at h
+          obtain ⟨hn, hτ⟩ := h
+          subst hn
+          have hτk : τ = (scalarTy k).r := lit_type hty
+          have := elabE_unelab_lit hu
+          rw [hlit k rfl] at this
+          rw [this, ← hτ, hτk]
+          rfl
+        · simp at h; exact plain _ _ opSyn_minus h.1.symm h'
+      · simp at h; exact plain _ _ opSyn_minus h.1.symm h'
+  | logicalNot =>
+    simp only [elabUn] at h
+    split at h
+    · simp at h
+    · simp at h
+    · rename_i l hne hno
+      split at h
+      · simp at h
+      · rename_i e2 hco
+        simp at h
+        obtain ⟨hn, hτ⟩ := h
+        by_cases hb : τ.ty.layer.extractScalar = some .bool
+        · -- a bool operand is used as it is
+          simp only [hb, if_true] at hco hτ
+          rcases castOperand_inv hco with ⟨_, he⟩ | ⟨hne', _⟩
+          · subst he
+            apply plain _ _ opSyn_logicalNot hn.symm
+            rw [← hn, ← hτ]
+            cases hl : τ.ty.layer <;> simp_all [elabUn, castOperand]
+          · exact absurd rfl hne'
+        · simp only [hb, if_false] at hco hτ
+          rcases castOperand_inv hco with ⟨he, _⟩ | ⟨hne', c, hf, ha⟩
+          · exfalso; apply hb; rw [he]; rfl
+          · apply conv _ _ e2 boolR c opSyn_logicalNot hn.symm rfl hf ha
+            intro e0 τ0 hbk
+            have hco0 : castOperand (.reject "UnaryOperationWrongTypes") e0 τ0 boolR = .ok e2 :=
+              castOperand_of_back hne' hf ha hbk
+            rw [← hn, ← hτ]
+            cases hbk with
+            | same =>
+              cases hl : τ.ty.layer <;> simp_all [elabUn]
+            | exact _ =>
+              simp [elabUn, boolR, scalarTy, Ty.r, Layer.extractScalar, castOperand, Ty.unmod]
+            | relit _ hD _ => exact absurd hD boolR_ne_int32
+  | bitwiseNot =>
+    have h' := h
+    simp only [elabUn] at h
+    split at h
+    · simp at h
+    · simp at h; exact plain _ _ opSyn_bitwiseNot h.1.symm h'
+    · simp at h; exact plain _ _ opSyn_bitwiseNot h.1.symm h'
+    · simp at h; exact plain _ _ opSyn_bitwiseNot h.1.symm h'
+    · rename_i hl
+      split at h
+      · simp at h
+      · rename_i e2 hco
+        simp at h
+        obtain ⟨hn, hτ⟩ := h
+        rcases castOperand_inv hco with ⟨he, _⟩ | ⟨hne', c, hf, ha⟩
+        · rw [he] at hl; cases hl
+        · apply conv _ _ e2 intR c opSyn_bitwiseNot hn.symm rfl hf ha
+          intro e0 τ0 hbk
+          have hco0 : castOperand unwrapPanic e0 τ0 intR = .ok e2 := castOperand_of_back hne' hf ha hbk
+          rw [← hn, ← hτ]
+          cases hbk with
+          | same => simp [elabUn, hl, hco]
+          | exact _ => simp [elabUn, intR, scalarTy, Ty.r, Ty.unmod]
+          | relit _ _ hτ' =>
+            rcases hτ' with rfl | rfl <;> cases hl
+    · simp at h
+  | dereference => simp [elabUn] at h
+  | addressOf => simp [elabUn] at h
+
 end RsslVerif.Lemmas.FixpointForms
